@@ -577,6 +577,109 @@ def elim_config():
     return Config('non-port fork with one input and one output in a well-formed circuit', contract, setup, None)
 
 
+# ------------------------------------------------------------------------------------------- stems table of SimOps.__init__ (C08 / C06)
+ROOT = z3.Function('ROOT', I, I)          # ghost: the stem line of a line (walk back through driving forks that have a connected input)
+DEPTH = z3.Function('DEPTH', I, I)        # ghost: number of such forks behind a line (well-founded: fork chains are acyclic)
+
+
+def fork_with_input(v, n):
+    return z3.And(v.Nf[n], v.IL[n] > 0, v.IN[n][0] != NONE)
+
+
+class StemsArr(Model):
+    """stems : heap['stems'] : Array line index -> stem index; indexed by Line objects (their index) or ints"""
+
+    def m_setitem(self, ex, st, idx, val, node):
+        if isinstance(idx, LineRef):
+            ex.prove(st, 'no-exception:TypeError None used as an index', idx.oid != NONE, node)
+            i = st.heap[('L', 'index')][idx.oid]
+        else:
+            i = to_int(idx)
+        ex.prove(st, 'index-in-bounds:stems', z3.And(i >= 0, i < to_int(st.heap[('C', 'lines_len')]) + ex.g['extra']), node)
+        st.heap['stems'] = z3.Store(st.heap['stems'], i, to_int(val))
+
+
+def stems_body(stmts):
+    """body of ``for f in circuit.forks.values():`` in the stems part of SimOps.__init__ (from ``prev_line = f.ins[0]`` on)"""
+    for s in ast.walk(ast.Module(body=list(stmts), type_ignores=[])):
+        if isinstance(s, ast.For) and 'forks' in ast.unparse(s.iter):
+            for i, x in enumerate(s.body):
+                if isinstance(x, ast.Assign) and isinstance(x.targets[0], ast.Name) and x.targets[0].id == 'prev_line':
+                    return list(s.body[i:])
+    from pyvc.engine import ContractError
+    raise ContractError('stems block not found in SimOps.__init__')
+
+
+def stems_config():
+    def setup(ex):
+        st = fresh_state(ex)
+        v = V(st)
+        f = ex.fv('f', 'int').e
+        for nm, c in wf_lines(v) + wf_nodes(v)[:1]:
+            st.assume(SBool(c))
+        l = z3.Int('l')
+        d = v.Ld[l]
+        # ghost definitions: ROOT / DEPTH follow the driving forks with a connected input; DEPTH decreases (acyclic fork chains)
+        st.assume(SBool(z3.ForAll([l], z3.Implies(v.inL(l), z3.And(DEPTH(l) >= 0,
+                                                                   z3.If(fork_with_input(v, d), z3.And(ROOT(l) == ROOT(v.IN[d][0]), DEPTH(l) > DEPTH(v.IN[d][0])), ROOT(l) == l))))))
+        st.assume(SBool(z3.And(v.inN(f), fork_with_input(v, f))))
+        extra = ex.fv('extra_slots', 'int').e
+        st.assume(SBool(extra >= 0))
+        st.heap['stems'] = z3.Array('stems0', I, I)
+        st.env.update(f=NodeRef(f), stems=StemsArr())
+        ex.g = dict(f=f, v0=v, extra=extra, stems0=st.heap['stems'])
+        return st
+
+    def walk_inv(ex, st):
+        g = ex.g
+        v = g['v0']
+        pl = st.env.get('prev_line')
+        if not isinstance(pl, LineRef):
+            yield 'prev_line is a line', False
+            return
+        yield 'W:prev_line is a line of the circuit with the same stem as the input line of the fork', \
+            SBool(z3.And(v.inL(pl.oid), ROOT(pl.oid) == ROOT(v.IN[g['f']][0])))
+
+    def walk_variant(ex, st):
+        return SInt(DEPTH(st.env['prev_line'].oid))
+
+    def outs_inv(ex, st):
+        g = ex.g
+        v = g['v0']
+        k = to_int(st.env['__k1'])
+        p, x = z3.Ints('p x')
+        root = ROOT(v.IN[g['f']][0])
+        S = st.heap['stems']
+        yield 'O1:the connected outputs passed so far map to the index of the stem line', \
+            SBool(z3.ForAll([p], z3.Implies(z3.And(0 <= p, p < k, v.O[g['f']][p] != NONE), S[v.Li[v.O[g['f']][p]]] == v.Li[root])))
+        yield 'O2:every other entry is unchanged', \
+            SBool(z3.ForAll([x], z3.Implies(z3.Not(z3.And(v.inL(v.LS[x]), 0 <= x, x < v.NL, v.Ld[v.LS[x]] == g['f'], v.Ldp[v.LS[x]] < k)), S[x] == g['stems0'][x])))
+        yield 'O3:stem_idx is the index of the stem line', SBool(to_int(st.env['stem_idx']) == v.Li[root])
+
+    def post(ex, st):
+        g = ex.g
+        v = g['v0']
+        p, x = z3.Ints('p x')
+        root = ROOT(v.IN[g['f']][0])
+        S = st.heap['stems']
+        yield 'every connected output (fan-out branch) of the fork maps to the index of its stem: the first line upstream that is not driven by a fork with a connected input', \
+            SBool(z3.And(v.inL(root), z3.Not(fork_with_input(v, v.Ld[root])),
+                         z3.ForAll([p], z3.Implies(z3.And(0 <= p, p < v.OL[g['f']], v.O[g['f']][p] != NONE), S[v.Li[v.O[g['f']][p]]] == v.Li[root]))))
+        yield 'entries of lines that are not outputs of this fork are unchanged', \
+            SBool(z3.ForAll([x], z3.Implies(z3.Not(z3.And(0 <= x, x < v.NL, v.Ld[v.LS[x]] == g['f'])), S[x] == g['stems0'][x])))
+        ex.prove(st, 'mustfail:stems is unchanged', SBool(S == g['stems0']), ex.fn, expect='refuted')
+    contract = {'post': post, 'expr_fork': True, 'loop_body': True,
+                'loops': {0: {'inv': walk_inv, 'variant': walk_variant, 'modifies': [], 'kinds': {'prev_line': 'line'}},
+                          1: {'inv': outs_inv, 'modifies': ['stems'], 'kinds': {'ol': 'keep'}}}}
+    return Config('fork with a connected input in a well-formed circuit with acyclic fork chains', contract, setup, None)
+
+
+def targets_stems():
+    return [Target('sim', 'SimOps.__init__', [stems_config()], body_slice=stems_body, instantiate='fallback', label='stems of one fork',
+                   kinds={'line': lambda n: LineRef(z3.Int(n))},
+                   note='body of `for f in circuit.forks.values():` from `prev_line = f.ins[0]` on (strip_forks)')]
+
+
 def targets_c10():
     return [Target('circuit', 'Circuit.eliminate_1to1_forks', [elim_config()], body_slice=elim_body, instantiate='fallback', label='one fork',
                    note='loop body from `in_line = n.ins[0]` on; Node.remove / Line.remove inlined')]
